@@ -46,7 +46,8 @@ PROPS = {
                    "RegretBound::regret_bound is the IEEE max of the two per-player bounds (loop-free Kani over all f64 pairs = proof).",
         level_note="The inequality bound >= true regret is Zinkevich et al. 2007 (trusted mathematics, not mechanised). The per-player "
                    "sum over infosets inside the solver loops is abstracted (R6) in the C09 slices. Counterfactual weighting: see C08.",
-        verus=[U("c02_cum_regret", ["C02.V.cum_regret.formula", "C02.V.cum_regret.nonneg"]),
+        verus=[U("c06_generic_multi_fresh", ["C06.V.solve_generic_multi.workspace_fresh (a stale payoff cache skips the updates the bound is computed from)"]),
+               U("c02_cum_regret", ["C02.V.cum_regret.formula", "C02.V.cum_regret.nonneg"]),
                U("c08_advance_order", ["C02.V.advance.reports_bound"]),
                U("c08_recurse_player", ["C08.V.recurse_player.update (counterfactual weight: opponent reach x chance reach, sign for player two)"]),
                U("c08_recurse_single_player_arm", ["C08.V.recurse_single.player_arm (regret_a += weight x u_a - expected counterfactual value; average strategy += own reach x strategy)"]),
@@ -69,7 +70,8 @@ PROPS = {
         level_note="Leaf totality only: absence of panics in the tree recursion, hangs, deadlock and lock poisoning are not decided; "
                    "Game::solve's dispatch is proved against stand-ins for NonZeroUsize / available_parallelism and uninterpreted solvers. exp is a "
                    "sound interval model in the softmax harness.",
-        verus=[U("c02_cum_regret", ["C02.V.cum_regret.nonneg (each per-infoset bound is a non-negative number)"]),
+        verus=[U("c10_solver_tables", ["C10.V.solver_tables.player_entry_sized (every infoset's solver state has one slot per action)"]),
+               U("c02_cum_regret", ["C02.V.cum_regret.nonneg (each per-infoset bound is a non-negative number)"]),
                U("c05_avg_strat", ["C05.V.avg_strat.sums_to_one", "C05.V.avg_strat.normalised", "C05.V.avg_strat.uniform_when_empty"]),
                U("c05_into_avg_strat", ["C05.V.into_avg_strat.normalised"]),
                U("c08_regret_match", ["C08.V.regret_match.positive (current strategy: non-negative entries summing to one, any number of actions)", "C08.V.regret_match.fallback_argmax", "C08.V.regret_match.fallback_uniform", "C08.V.regret_match.fallback_argmin"]),
@@ -89,7 +91,8 @@ PROPS = {
                    "site and no stale cached payoff can cut the traversal.",
         level_note="Schedule independence is NOT decided (no thread reasoning in Verus/Kani). thread_threshold, par_drain/par_extend are "
                    "assumed contracts restating the anchor / rayon documentation.",
-        verus=[U("c06_generic_multi_fresh", ["C06.V.solve_generic_multi.workspace_fresh"]),
+        verus=[U("c10_solver_tables", ["C10.V.solver_tables.full_enumerates (the multi-threaded unsampled solver is built over the same enumerating chance entries as the single-threaded one)"]),
+               U("c06_generic_multi_fresh", ["C06.V.solve_generic_multi.workspace_fresh"]),
                U("c06_threshold_player_step", ["C06.V.thread_threshold.frontier_reach", "C06.V.thread_threshold.frontier_reach_chance"]),
                U("c06_recurse_multi_cache", ["C06.V.recurse_multi.cache_hit", "C06.V.recurse_multi.miss_traverses", "C06.V.cached_payoff.unit_is_empty"]),
                U("c08_recurse_single_player_arm", ["C08.V.recurse_single.player_arm (one visit of a decision node: the single-threaded statement)"]),
@@ -112,7 +115,8 @@ PROPS = {
                    "path does the same, and that each chance infoset / opponent infoset draws at most once per pass and is re-armed by "
                    "reset()/advance().",
         level_note="Schedules and the uniqueness of the visit behind try_lock().unwrap() are NOT decided.",
-        verus=[U("c07_external_fresh", ["C07.V.single_player_iter.workspace_fresh", "C07.V.solve_external_multi.workspace_fresh"]),
+        verus=[U("c06_threshold_player_step", ["C06.V.thread_threshold.frontier_reach", "C06.V.thread_threshold.frontier_reach_chance"]),
+               U("c07_external_fresh", ["C07.V.single_player_iter.workspace_fresh", "C07.V.solve_external_multi.workspace_fresh"]),
                U("c06_generic_multi_fresh", ["C06.V.solve_generic_multi.workspace_fresh"]),
                U("c05_into_avg_strat", ["C05.V.into_avg_strat.normalised (the multi-threaded extraction uses the same normalisation)"]),
                U("c08_recurse_regret_dispatch", ["C08.V.recurse_regret.cache_hit (a frontier node evaluated by a worker is not traversed again)", "C08.V.recurse_regret.chance_sampled", "C08.V.recurse_regret.external_sampled"]),
@@ -136,7 +140,8 @@ PROPS = {
                    "branches are bounded Kani harnesses.",
         level_note="Equality of whole trajectories with a reference solver is NOT decided; recurse_player is proved at its &mut [f64] "
                    "instance (TYPE-SUBST) only; recurse_single/multi/regret (RefCell/Mutex-generic recursion) are read, not proved.",
-        verus=[U("c08_regret_match", ["C08.V.regret_match.positive", "C08.V.regret_match.fallback_argmax", "C08.V.regret_match.fallback_uniform", "C08.V.regret_match.fallback_argmin"]),
+        verus=[U("c06_threshold_player_step", ["C06.V.thread_threshold.frontier_reach", "C06.V.thread_threshold.frontier_reach_chance"]),
+               U("c08_regret_match", ["C08.V.regret_match.positive", "C08.V.regret_match.fallback_argmax", "C08.V.regret_match.fallback_uniform", "C08.V.regret_match.fallback_argmin"]),
                U("c08_discount", ["C08.V.gen_discount.value", "C08.V.discount_cum_regret", "C08.V.discount_average_strat.ratio"]),
                U("c08_advance_order", ["C08.V.advance.match_before_discount", "C08.V.advance.discount_regrets", "C08.V.advance.discount_average"]),
                U("c08_update_cum_strat", ["C08.V.update_cum_strat.vanilla", "C08.V.update_cum_strat.external", "C08.V.update_cum_strat.mutex"]),
@@ -171,6 +176,7 @@ PROPS = {
                    "facts `x < NaN` is false and bounds >= 0 (the cum_regret harnesses, bounded to <= 2 regrets per infoset in the quick tier).",
         kani_functions=["src/solve/data.rs :: impl RegretParams / fn cum_regret"],
         verus=[
+            U("c05_solve_dispatch", ["C05.V.solve.one_thread_never_errors", "C05.V.solve.multi_dispatch (the threshold and budget handed to the solver are the caller's, unmodified)"]),
             U("c02_cum_regret", ["C02.V.cum_regret.nonneg (every per-infoset bound the loops sum is >= 0: a zero or negative threshold is never undercut; any number of actions)"]),
             U("c09_generic_single", ["C09.V.first_below"]),
             U("c09_generic_multi", ["C09.V.first_below"]),
@@ -195,6 +201,7 @@ PROPS = {
             U("c08_advance_order", ["C10.V.cached_infoset.advance_resets_draw"]),
             U("c10_full_chance", ["C10.V.full_chance.no_draw"]),
             U("c10_external_next", ["C10.V.external.chance_next", "C10.V.external.chance_advance_rearms", "C10.V.external.player_next", "C10.V.external.next_update"]),
+            U("c10_solver_tables", ["C10.V.solver_tables.full_enumerates (the unsampled method's chance entries never draw)", "C10.V.solver_tables.sampled_samples_declared_weights", "C10.V.solver_tables.player_entry_sized"]),
             U("c07_external_next_nodes", ["C07.V.next_nodes.sampled_walk", "C07.V.next_nodes.draws_kept"]),
             U("c08_recurse_regret_dispatch", ["C08.V.recurse_regret.active_enumerates (the pass's own player is enumerated)", "C08.V.recurse_regret.external_sampled (the other player's sampled action is followed)", "C08.V.recurse_regret.chance_sampled"]),
         ],
@@ -221,7 +228,8 @@ PROPS = {
                                        "C11.V.init_recurse.same_probabilities", "C11.V.init_recurse.same_actions", "C11.V.init_recurse.perfect_recall",
                                        "C11.V.init_recurse.distinct_actions", "C11.V.init_recurse.records_infoset", "C11.V.init_recurse.recall_bookkeeping",
                                        "C11.V.init_recurse.empty_chance", "C11.V.init_recurse.single_outcome_elided", "C11.V.init_recurse.empty_player", "C11.V.init_recurse.player_dispatch",
-                                       "C11.V.init_recurse.single_action_same", "C11.V.init_recurse.single_action_recorded_once"])],
+                                       "C11.V.init_recurse.single_action_same", "C11.V.init_recurse.single_action_recorded_once"]),
+               U("c11_constructors", ["C11.V.constructors.chance_infoset", "C11.V.constructors.chance_node", "C11.V.constructors.player_builder", "C11.V.constructors.player_infoset", "C11.V.constructors.num_actions"])],
         kani_functions=[],
         trusted_base=["uninterpreted float semantics + IEEE classification facts (Kani harness ieee_classification)",
                       "assumed contracts on compact::{OccupiedEntry, VacantEntry} (IndexMap), std HashMap::entry (prophecy of the entry's use), slice comparison, HashSet::len of collected references, == of user label types being equality"],
@@ -256,7 +264,7 @@ PROPS = {
                    "in every block that has a survivor.",
         level_note="The Filter/sum statement computing the divisor is abstracted in Verus (value arbitrary); that it is the sum "
                    "of survivors is only checked at the bounded level. Idempotence / sum-to-one up to rounding not decided.",
-        verus=[U("c18_truncate_block", ["C18.V.truncate.rescale"]),
+        verus=[U("c18_truncate_block", ["C18.V.truncate.rescale", "C18.V.truncate.total_over_survivors"]),
                U("c18_truncate_whole", ["C18.V.truncate.whole (the method is its per-infoset loops applied once to the profile handed in: no stale guard, no early exit)"]),
                U("c18_truncate_sums_to_one", ["C18.V.truncate.sums_to_one", "C18.V.truncate.flat_infoset_unchanged"]),
                U("split_by", ["V.SplitsByMut.next.partition"])],
